@@ -206,7 +206,8 @@ pub fn finish(
         prop, tier.s(), n_scn, execs, steps, nodes, outcomes_nt + extra.distinct, exhaustive, rep.wall_s
     );
     if let Some(c) = &rep.capped {
-        println!("CAP: {}", c);
+        let short: String = c.chars().take(160).collect();
+        println!("CAP (not exhaustive): {}", short);
     }
     for n in &extra.notes {
         println!("note: {}", n);
